@@ -474,6 +474,35 @@ def Forest.recoveryFilesPR (f : Forest) (fuel : Nat) (nodes : List Nat) (evs : L
   nodes.filter (fun n => evs.any (fun e => (f.chainR e.running fuel e.node).contains n &&
     f.recovery n && !(match f.parent n with | some p => e.running p | none => false)))
 
+/-! ### value links (macro input → child input) and what restoring them does
+
+A macro forwards every assignment to one of its inputs to the child input it is linked to (`value_receiver`), and
+so on down nested macros.  The link is one-directional: a child input may be assigned DIRECTLY and then differs from
+the macro input above it — legal, and part of "the graph as it stood".  Channels are numbers. -/
+
+/-- `recv c` = the channel that assignments to `c` are forwarded to -/
+abbrev Recv := Nat → Option Nat
+
+/-- an assignment through the public setter: the value lands on the channel and on everything linked below it -/
+def assign {α} (recv : Recv) : Nat → Nat → α → (Nat → α) → (Nat → α)
+  | 0, c, x, v => updF v c x
+  | fuel + 1, c, x, v => match recv c with
+    | none => updF v c x
+    | some d => assign recv fuel d x (updF v c x)
+
+/-- forging the stored links `(source, receiver)` of a restored graph one after the other (inner macros first, as
+`__setstate__` does, or in any other order).  `viaSetter = false`: the private assignment of the pinned code — the
+link is put in place, no value moves.  `viaSetter = true`: the public `value_receiver` setter, which pushes the
+source's value onto the receiver (and on through the links forged so far). -/
+def restoreLinks {α} (viaSetter : Bool) (fuel : Nat) : List (Nat × Nat) → Recv → (Nat → α) → Recv × (Nat → α)
+  | [], r, v => (r, v)
+  | (s, d) :: rest, r, v =>
+    let r' : Recv := fun c => if c = s then some d else r c
+    restoreLinks viaSetter fuel rest r' (if viaSetter then assign r' fuel d (v s) v else v)
+
+/-- every forged link connects two channels holding the same value -/
+def Agree {α} (r : Recv) (v : Nat → α) : Prop := ∀ c d, r c = some d → v c = v d
+
 /-- the directory a checkpoint of child `c` goes to -/
 def Forest.checkpointDir (f : Forest) (fuel : Nat) (c : Nat) : Nat := f.root fuel c
 
